@@ -10,6 +10,8 @@ CFG = {'assumptions': ['the section is in the property domain: 0 <= off, 0 <= n,
                          'then iohelper.AtToReader + Read over the same file',
         'iohelper.TwoSections': 'two iohelper.NewSectionWriter over ONE in-memory file, their Write/WriteAt/Seek/Size calls interleaved, '
                                 'and the file content afterwards',
+        'iohelper.Nested': 'sections of sections: NewSectionWriter / AtToWriter over a *SectionWriter over ... the in-memory file, calls '
+                           'addressed to any level, every (offset, bytes) the file receives and the file content afterwards',
         'pbcmpl.File': 'pbcmpl.Marshal(iohelper.AtToWriter(memfile, off), msg) for several (off, msg) in one in-memory file, the file content, '
                        'then pbcmpl.Unmarshal(iohelper.AtToReader(memfile, off), blank) for every off'},
  'rule': 'one case = one whole call sequence on a fresh section over a scripted mock io.WriterAt; every return value and '
@@ -36,5 +38,9 @@ CFG = {'assumptions': ['the section is in the property domain: 0 <= off, 0 <= n,
                   'without a version) marshalled through AtToWriter at offsets back to back / with gaps / overlapping / identical / anywhere, '
                   'in ascending or shuffled order, over an initial file of 0..300 bytes, then unmarshalled through AtToReader at every offset '
                   '(damaged frames included: invalid header size / body size, truncated body, decode error); BytesValue frames never overlap '
-                  '(the modelled decoder covers intact bodies only); non-trivial when at least two frames share the file',
+                  '(the modelled decoder covers intact bodies only); non-trivial when at least two frames share the file. '
+                  'iohelper.Nested = 2 (occasionally 3) stacked section writers, the outer window inside / flush with / straddling / beyond '
+                  'the inner one, outer n = 0, inner n = 0, AtToWriter levels; 2..14 calls mostly on the outermost writer with direct calls '
+                  'on inner writers interleaved, fault scripts; exhaustive: inner (1, 0..4) x outer (0..5, {AtToWriter, 0..4}) x 5 call '
+                  'patterns; non-trivial when a Write/WriteAt was issued on an outer level',
  'shrink_s': 30}
